@@ -51,6 +51,36 @@ def hello_pool(dtls: bool):
     return P
 
 
+def degenerate_pool(dtls: bool):
+    """Hellos whose framing is correct (every length field consistent, the kaitai parser accepts them) but whose
+    extension contents are degenerate.  Not 'well-formed' for the oracle: judged for totality only -- parsing and
+    every accessor of the returned object (sni, alpn_protocols, cipher_suites, extensions) must not fail."""
+    sni = ["sni", "example.com"]
+    alpn = ["alpn", ["h2", "http/1.1"]]
+    ems = ["raw", 23, ""]
+    return [
+        ("sni_empty_list", _spec(dtls, [["snilist", []], alpn])),
+        ("sni_empty_list_then_real", _spec(dtls, [["snilist", []], sni, alpn])),
+        ("sni_empty_list_last", _spec(dtls, [alpn, ems, ["snilist", []]])),
+        ("sni_two_names", _spec(dtls, [["snilist", [[0, "a.example"], [0, "b.example"]]], alpn])),
+        ("sni_two_types", _spec(dtls, [["snilist", [[0, "a.example"], [1, "xx"]]]])),
+        ("sni_unknown_type_only", _spec(dtls, [["snilist", [[7, "a.example"]]], ems])),
+        ("sni_zero_length_host", _spec(dtls, [["snilist", [[0, ""]]], alpn])),
+        ("sni_empty_body", _spec(dtls, [["raw", 0, ""], alpn])),
+        ("sni_non_ascii_host", _spec(dtls, [["snilist", [[0, "\xff\xfe.example"]]], alpn])),
+        ("sni_nul_and_space_host", _spec(dtls, [["snilist", [[0, "exa mple\x00.com"]]]])),
+        ("sni_trailing_dot_and_newline", _spec(dtls, [["snilist", [[0, "example.com.\n"]]], ems])),
+        ("sni_ip_literal", _spec(dtls, [["snilist", [[0, "192.0.2.7"]]], alpn])),
+        ("sni_overlong_label", _spec(dtls, [["snilist", [[0, "a" * 64 + ".example"]]], alpn])),
+        ("alpn_empty_list", _spec(dtls, [sni, ["alpn", []]])),
+        ("alpn_empty_body", _spec(dtls, [sni, ["raw", 16, ""]])),
+        ("alpn_zero_length_name", _spec(dtls, [["alpn", ["", "h2"]], sni])),
+        ("alpn_twice", _spec(dtls, [["alpn", ["h2"]], sni, ["alpn", ["http/1.1"]]])),
+        ("no_suites_no_compression", _spec(dtls, [sni, alpn], suites=[0x1301], comp=()) | {"suites": []}),
+        ("all_degenerate", _spec(dtls, [["snilist", []], ["alpn", []], ["raw", 0, "0000"], ["raw", 16, "0000"], ems])),
+    ]
+
+
 MODELABLE = ("typical", "mixed_case_sni", "idn_underscore_sni", "long_sni", "no_alpn", "many_alpn", "many_suites")
 
 
@@ -543,6 +573,21 @@ class Check(core.PropertyCheck):
                     else:
                         yield core.Scenario(self._valid_tls(rng, name, spec), source="suite")
                         yield core.Scenario(self._valid_tls(rng, name, spec, trailing=True), source="suite")
+        # structurally valid hellos with degenerate extension contents (totality of parsing and of every accessor)
+        for dtls in (False, True):
+            for name, spec in degenerate_pool(dtls):
+                body, _cuts = th.build_body(spec)
+                for _ in range(2 if ctx.quick else 12):
+                    if dtls:
+                        wire = th.record(th.handshake_header(len(body), True) + body, True)
+                        sc = make_scenario("dtls", False, "degenerate:" + name, 1, wire, [len(wire)], hello=name)
+                    else:
+                        msg = th.handshake_header(len(body), False) + body
+                        sizes = split_sizes(rng, len(msg), rng.choice([1, 2, 3]))
+                        wire = tls_wire(msg, sizes, rng)
+                        sc = make_scenario("tls", False, "degenerate:" + name, len(sizes), wire,
+                                           split_sizes(rng, len(wire), rng.choice([1, 2, 3])), hello=name)
+                    yield core.Scenario(sc, source="suite")
         # a record of the maximum legal size (2^14) and records of one byte
         name, spec = [p for p in hello_pool(False) if p[0] == "huge_padding"][0]
         body, _ = th.build_body(spec)
